@@ -26,7 +26,7 @@ RULE = (
     "update_predict; distinct = distinct JSON of the case"
 )
 ASSUMPTIONS = [
-    "batches always end later than the current cutoff (data arrive in time order)",
+    "batches end at or after the current cutoff (data arrive in time order; a batch ending at the cutoff revises known observations)",
     "ThetaForecaster (own incremental update) is held to the cutoff / labelling clauses only",
     "reducers with update_params=False are held to the cutoff / labelling clauses only",
     "forecasts compared with rtol 1e-8",
@@ -157,6 +157,10 @@ def oracle(case, ctx):
         elif kind in ("update", "ups"):
             o = min(op["overlap"], len(model["obs"]) - 1)
             labs = list(range(c + 1 - o, c + 1 + op["k"]))
+            if not labs:
+                continue
+            if op["k"] == 0:
+                ctx.label("pure_revision_batch")
             vals = []
             for k in labs:
                 if k <= c:
@@ -373,8 +377,10 @@ def cases(draw):
     for _ in range(draw(st.integers(1, 6))):
         t = draw(st.sampled_from(["update", "update", "update", "predict", "ups", "update_predict", "refit"]))
         if t in ("update", "ups"):
-            ops.append({"op": t, "k": draw(st.integers(1, 4)), "overlap": draw(st.sampled_from([0, 0, 1, 2, 3])),
-                        "revise": draw(st.booleans()), "update_params": draw(st.sampled_from([True, True, False]))})
+            k = draw(st.sampled_from([1, 2, 3, 4, 1, 2, 0]))
+            # k == 0: a pure revision of the latest observations (the batch ends AT the cutoff)
+            ops.append({"op": t, "k": k, "overlap": draw(st.sampled_from([0, 0, 1, 2, 3])) if k else draw(st.integers(1, 3)),
+                        "revise": draw(st.booleans()) if k else True, "update_params": draw(st.sampled_from([True, True, False]))})
         elif t == "predict":
             ops.append({"op": "predict"})
         elif t == "refit":
